@@ -4,7 +4,7 @@
    is REGENERATED from match.py / search.py (Gen/Env.v); (3) the third-party engines (regex, iregexp_check) are NOT
    modelled: they are validated on generated patterns against the I-Regexp semantics below, whose executable
    matcher is proved to decide the language definition.  Partial, stated as such. *)
-From JP Require Import Base.Json Model.Ast Model.Eval Model.MapRe Spec.IRegexp Gen.Env Proofs.GenTies.
+From JP Require Import Base.Json Model.Ast Model.Eval Model.MapRe Spec.IRegexp Gen.Env Proofs.TieEnv.
 
 (* the oracle: for every category assignment, expression and string, the derivative matcher answers exactly
    "the string is in the language of the expression" *)
